@@ -212,9 +212,9 @@ def _containers(ctx, P):
     # ---- cumsum
     cfi = P.func("grid:Grid.cumsum")
     try:
-        from .c09 import _models
+        from .c09 import cumsum_evaluator, _models
 
-        ev = Evaluator(P, models=_models(), attr_models={("DataArray", "chunks"): lambda ev, o, n: TOP})
+        ev = cumsum_evaluator(P)
         to, bnd, fv, mw = {AX: "left"}, {AX: "fill"}, {AX: 1.0}, {AX: (AX,)}
         da = make_da("da", [Sym("t"), dimsym("AX", "center")])
         outs = ev.run_paths(cfi, lambda: dict(self=make_grid(("AX", "AY")), da=da, axis=[AX], to=copy.deepcopy(to), boundary=copy.deepcopy(bnd), fill_value=copy.deepcopy(fv), metric_weighted=copy.deepcopy(mw), keep_coords=False))
